@@ -582,3 +582,24 @@ Proof.
   - eapply is_prefix_trans; eassumption.
   - apply lstat_dir_no_link. exact El.
 Qed.
+
+(* ------------------------------------------------------------------ histories: each use is judged against its own tree *)
+Lemma run_history_ok : forall d cwd base steps i t ep g p accs,
+  nth_error steps i = Some (t, ep, p) ->
+  In (ep, g) gen_entry_guards ->
+  nth_error (run_history d cwd gen_table_dirs base steps) i = Some (Ok accs) ->
+  exists rb q, realpath d t cwd base = Ok rb
+    /\ guard_result d t cwd gen_table_dirs base rb g p = Ok q
+    /\ Forall (fun a => (snd a = q \/ snd a = parent q) /\ touch_ok t rb a) accs.
+Proof.
+  intros d cwd base steps i t ep g p accs Hs Hg Hr. unfold run_history in Hr.
+  rewrite (map_nth_error _ _ _ Hs) in Hr. inversion Hr as [Hr']. eapply run_entry_ok; eassumption.
+Qed.
+
+(* the same string may be accepted under one arrangement and must be re-judged under the next: nothing carries over *)
+Lemma run_history_stateless : forall d cwd dirs base pre post t ep p,
+  nth_error (run_history d cwd dirs base (pre ++ (t, ep, p) :: post)) (length pre) = Some (run_entry d t cwd dirs base ep p).
+Proof.
+  intros. unfold run_history. rewrite map_app. rewrite nth_error_app2 by (rewrite map_length; apply Nat.le_refl).
+  rewrite map_length, Nat.sub_diag. reflexivity.
+Qed.
